@@ -148,6 +148,18 @@ class LocationAction(object):
         """Get the action type."""
         return self.__action_type
 
+    def continue_from(self, previous: 'LocationAction'):
+        """
+        Continue where the same action of the previous config is.
+
+        A tracepoint that is still in the config after an update is the same tracepoint, not a new one with a fresh
+        budget: it keeps what was counted so far (fires, last fire), and the lock that goes with that.
+
+        :param previous: the action as it is in the previous config
+        """
+        self.__stats = previous.__stats
+        self.__lock = previous.__lock
+
     @property
     def location(self) -> Optional['Location']:
         """Get the location config."""
